@@ -259,10 +259,14 @@ class Helpers(Lane):
 
 def body(chk):
     quick = chk.tier == 'quick'
-    p = (2, 1, 1, False) if quick else tier_param('C03', (3, 2, 2, True))
+    p = (2, 1, 1, False) if quick else tier_param('C03', (3, 2, 2, False))
     run_lane(chk, ResponseDecode, p, bounds={'strings': f'<= {p[0]} bytes (valid UTF-8 by z3 predicate)', 'referrals': p[1], 'controls': p[2], 'length forms': 'short/81/82/84/88 ' + ('independently per level (envelope, operation, inner)' if p[3] else 'one form for all inner levels, envelope same or short'),
                                              'result code': '0..2^31-1 in 1..4 octets', 'message id': '1..4 octets', 'response kinds': KINDS},
              need_regions=('controls', 'referrals', 'long-form', 'exop'))
+    if not quick:
+        p2 = tier_param('C03F', (1, 1, 1, True))
+        run_lane(chk, ResponseDecode, p2, bounds={'strings': f'<= {p2[0]} bytes', 'referrals': p2[1], 'controls': p2[2], 'length forms': 'short/81/82/84/88 chosen independently for the envelope, the operation and the inner TLVs',
+                                                  'result code': '0..2^31-1 in 1..4 octets', 'message id': '1..4 octets', 'response kinds': KINDS}, selftest=False, need_regions=('long-form',))
     run_lane(chk, Helpers, (), bounds={'result code': 'all u32', 'helpers': Helpers.FNS},
              need_regions=tuple(f + s for f in Helpers.FNS for s in (':ok', ':err')))
     chk.assumptions += [
